@@ -11,6 +11,6 @@ var sched *scheduler
 func (s *scheduler) spawn(fr *frame, instr *ssa.Go, fn value, args []value) {
 	panic(engineAbort{"unsupported", "scheduler not implemented"})
 }
-func (s *scheduler) reset() {}
+func (s *scheduler) reset()                           {}
 func (s *scheduler) syncOp(kind string, args []value) {}
 func (s *scheduler) yield(kind string)                {}
